@@ -64,6 +64,12 @@ func copyRun(fn string, srcKind, dstKind string, hasher bool, size int, fails ma
 		return "setup-error " + err.Error()
 	}
 	_ = se.base.Chmod(srcPath, 0o600)
+	// the destination already exists and is longer than the source: a copy replaces it, it does not overlay it
+	old := make([]byte, size+100)
+	for i := range old {
+		old[i] = 0xEE
+	}
+	_ = de.base.WriteFile(dstPath, old, 0o644)
 	ctr := 0
 	var trace []string
 	ff := func(side string) failfs.FailFunc {
@@ -152,6 +158,10 @@ func copyRun(fn string, srcKind, dstKind string, hasher bool, size int, fails ma
 	dstS := "dst=none"
 	if info, e := de.base.Stat(dstPath); e == nil {
 		got, _ := de.base.ReadFile(dstPath)
+		if bytes.Equal(got, old) {
+			// the copy failed before it reached the destination: the old file is still there, as if there were none
+			return fmt.Sprintf("err=%v dst=none %s trace=%s", err != nil, sumS(sum), compress())
+		}
 		perm := "other"
 		if info.Mode().Perm() == 0o600 {
 			perm = "src"
@@ -194,7 +204,7 @@ func copyOracle(line string) string {
 
 func corrCopy(seed uint64, tier string, replay []string) *lib.Result {
 	res := &lib.Result{Property: "C16",
-		Rule: "CopyFile/CopyFileHash/HashFile through FailFS on both sides; for every (size in {0,1,32767,32768,32769,65536,100000}, source fs, destination fs, hasher on/off): the no-fault run and EVERY single-fault plan 'the k-th consulted primitive fails' (k over all invocations of that run; exhaustive per configuration); thorough adds all double-fault plans for small sizes and random sizes; a case is one run; distinct non-trivial = distinct (fs pair, size class, failed primitive kind, outcome)"}
+		Rule: "CopyFile/CopyFileHash/HashFile through FailFS on both sides, onto a destination that already exists and is longer than the source; for every (size in {0,1,32767,32768,32769,65536,100000}, source fs, destination fs, hasher on/off): the no-fault run and EVERY single-fault plan 'the k-th consulted primitive fails' (k over all invocations of that run; exhaustive per configuration); thorough adds all double-fault plans for small sizes and random sizes; a case is one run; distinct non-trivial = distinct (fs pair, size class, failed primitive kind, outcome)"}
 	st := lib.NewStats()
 	kinds := []string{"memfs", "orefafs", "osfs"}
 	sizes := []int{0, 1, 32767, 32768, 32769, 65536, 100000}
